@@ -110,3 +110,11 @@ package data
 //@   props C20
 //@   ensures[idempotent] implements(value, Value) ==> result == value
 //@   ensures[nil-is-null] !implements(value, Value) && value == nil ==> typeis(result, Null)
+
+// C13 / C20: printing a map is deterministic (entries are collected, then sorted).
+//@ func Map.String
+//@   props C13 C20
+//@   nosafety
+//@   modifies *
+//@   loop 0
+//@     bag items[:i]
